@@ -132,6 +132,17 @@ def NoJsxL : List Node → Bool
   | n :: ns => NoJsx n && NoJsxL ns
 end
 
+/-- the property of a lowered member tag: the identifier name, or the computed string when it is not one -/
+theorem memberProp_no_jsx (pas : List String) :
+    NoJsx (match (Node.mk .ident pas [] : Node) with
+      | .mk .ident (name :: _) _ => if isValidPropIdent name then Node.mk .ident pas [] else nComputed (nStr name)
+      | p => p) = true := by
+  cases pas with
+  | nil => simp [NoJsx, NoJsxL, isJsxSyntax]
+  | cons name rest =>
+    simp only
+    split <;> simp [NoJsx, NoJsxL, isJsxSyntax, nComputed, nStr]
+
 /-- For EVERY well-formed member tag, of any depth, the lowered tag contains no JSX syntax at all. -/
 theorem C07_member_tag_no_jsx : ∀ (m : Node), WfMember m = true → NoJsx (jsxMemberToExpr m) = true
   | .mk k as ks, h => by
@@ -140,18 +151,20 @@ theorem C07_member_tag_no_jsx : ∀ (m : Node), WfMember m = true → NoJsx (jsx
     · rename_i as1 obj pas heq
       injection heq with hk ha hks
       subst hk hks
+      have hp := memberProp_no_jsx pas
       split at h
       · rename_i ias iks
         unfold jsxMemberToExpr
         simp only
         split
-        · simp [NoJsx, NoJsxL, isJsxSyntax]
-        · simp [NoJsx, NoJsxL, isJsxSyntax]
+        · simp only [NoJsx, NoJsxL, isJsxSyntax, Bool.not_false, Bool.true_and, Bool.and_true]; exact hp
+        · simp only [NoJsx, NoJsxL, isJsxSyntax, Bool.not_false, Bool.true_and, Bool.and_true]; exact hp
         · rename_i hne; exact absurd rfl (hne _ _)
       · rename_i mas mks
         have ih := C07_member_tag_no_jsx (.mk .jsxMember mas mks) h
         unfold jsxMemberToExpr
         simp only [NoJsx, NoJsxL, isJsxSyntax, Bool.not_false, Bool.true_and, Bool.and_true, ih]
+        exact hp
       · simp at h
     · simp at h
 
